@@ -100,7 +100,7 @@ def _first_col(b):
 
 
 def _scale(b, factor=1):
-    return b * factor
+    return (b * factor).astype(b.dtype)  # the callers declare dtype=x.dtype: keep it true for bool / narrow inputs
 
 
 def _steps():
@@ -187,8 +187,8 @@ def _steps():
     both("stack0", lambda xp, x: xp.stack([x, -x], axis=0))
     # ---- map_blocks / map_overlap / blockwise
     split("mb_double", lambda da, x: x.map_blocks(_double), lambda x: x * 2)
-    split("mb_x2", lambda da, x: x.map_blocks(_scale, factor=2, dtype=x.dtype), lambda x: x * 2)
-    split("mb_x5", lambda da, x: x.map_blocks(_scale, factor=5, dtype=x.dtype), lambda x: x * 5)
+    split("mb_x2", lambda da, x: x.map_blocks(_scale, factor=2, dtype=x.dtype), lambda x: (x * 2).astype(x.dtype))
+    split("mb_x5", lambda da, x: x.map_blocks(_scale, factor=5, dtype=x.dtype), lambda x: (x * 5).astype(x.dtype))
     split("mb_f8", lambda da, x: da.map_blocks(_to_f8, x, dtype="f8"), lambda x: x.astype("f8"))
     split(
         "mb_chunks",
@@ -584,7 +584,7 @@ def known_class(case, cls, got, ys):
         return "elemwise", "operands-with-different-chunks"
     if cls == "wrong-dtype" and last in SCALAR_STEPS and str(ys[-2].dtype) not in DEFAULT_DTYPES:
         return "elemwise", "python-scalar-promotes"
-    if cls == "lazy-dtype" and last in ("max_last", "max_gt", "min_split") and tuple(got.get("shape", (1,))) == () and got.get("dtype") == "int64":
+    if cls == "lazy-dtype" and last in ("max_last", "max_gt", "min_split", "max0") and tuple(got.get("shape", (1,))) == () and got.get("dtype") == "int64":
         return "minmax", "0-d-result"
     return None
 
